@@ -171,18 +171,31 @@ Proof. intros H. eapply star_step; [exact H| apply star_refl]. Qed.
 Lemma star_trans {A} (R : A -> A -> Prop) x y z : star R x y -> star R y z -> star R x z.
 Proof. induction 1; [auto|]. intros H2. eapply star_step; eauto. Qed.
 
-Inductive grow1 : ns -> ns -> Prop :=
-| G_add n t n' : add_taxon n t = Ok n' -> grow1 n n'
-| G_memo n t n' m : taxon_bitmask n t = Ok (n', m) -> grow1 n n'
+(* P says which taxa the transition sequence is allowed to add *)
+Inductive grow1 (P : tid -> Prop) : ns -> ns -> Prop :=
+| G_add n t n' : P t -> add_taxon n t = Ok n' -> grow1 P n n'
+| G_memo n t n' m : taxon_bitmask n t = Ok (n', m) -> grow1 P n n'
 | G_perm n tx : Permutation (taxa n) tx ->
-    grow1 n (mkNs tx (acc n) (rev n) (count n) (bm n) (is_mut n) (is_cs n))
-| G_cs n b : grow1 n (mkNs (taxa n) (acc n) (rev n) (count n) (bm n) (is_mut n) b).
+    grow1 P n (mkNs tx (acc n) (rev n) (count n) (bm n) (is_mut n) (is_cs n))
+| G_cs n b : grow1 P n (mkNs (taxa n) (acc n) (rev n) (count n) (bm n) (is_mut n) b).
+
+Lemma grow1_mono (P Q : tid -> Prop) n n' : (forall t, P t -> Q t) -> grow1 P n n' -> grow1 Q n n'.
+Proof.
+  intros H G. destruct G; [eapply G_add; eauto| eapply G_memo; eauto| apply G_perm; auto| apply G_cs].
+Qed.
+
+Lemma star_grow_mono (P Q : tid -> Prop) n n' :
+  (forall t, P t -> Q t) -> star (grow1 P) n n' -> star (grow1 Q) n n'.
+Proof.
+  intros H S. induction S; [apply star_refl|].
+  eapply star_step; [eapply grow1_mono; eauto| assumption].
+Qed.
 
 Inductive shrink1 : ns -> ns -> Prop :=
 | S_remove n t n' : remove_taxon n t = Ok n' -> shrink1 n n'
 | S_clear n : shrink1 n (mkNs [] [] [] (count n) [] (is_mut n) (is_cs n)).
 
-Lemma grow1_inv n n' : Inv n -> grow1 n n' -> Inv n'.
+Lemma grow1_inv P n n' : Inv n -> grow1 P n n' -> Inv n'.
 Proof.
   intros I G. destruct G.
   - eapply add_taxon_inv; eauto.
@@ -225,9 +238,9 @@ Proof.
   - intros H. eapply Permutation_trans; [apply A5; exact H| apply B5; congruence].
 Qed.
 
-Lemma grow1_grows n n' : grow1 n n' -> grows n n'.
+Lemma grow1_grows P n n' : grow1 P n n' -> grows n n'.
 Proof.
-  intros G. destruct G as [n t n' E|n t n' m E|n tx P|n b].
+  intros G. destruct G as [n t n' _ E|n t n' m E|n tx Pm|n b].
   - unfold add_taxon in E. destruct (alookup t (acc n)) eqn:A.
     + inversion E; subst. apply grows_refl.
     + destruct (is_mut n) eqn:M; simpl in E; [|discriminate]. inversion E; subst; clear E.
@@ -241,13 +254,32 @@ Proof.
     + inversion E; subst. apply grows_refl.
     + destruct (alookup t (acc n)); [|discriminate]. inversion E; subst.
       constructor; nsimpl; auto. lia.
-  - constructor; nsimpl; auto. + intros t. apply Permutation_in. exact P. + lia.
+  - constructor; nsimpl; auto. + intros t. apply Permutation_in. exact Pm. + lia.
   - constructor; nsimpl; auto. lia.
 Qed.
 
-Lemma star_grows n n' : star grow1 n n' -> grows n n'.
+Lemma star_grows P n n' : star (grow1 P) n n' -> grows n n'.
 Proof.
-  induction 1; [apply grows_refl|]. eapply grows_trans; [apply grow1_grows; eassumption| assumption].
+  induction 1; [apply grows_refl|]. eapply grows_trans; [eapply grow1_grows; eassumption| assumption].
+Qed.
+
+Lemma grow1_members P n n' x : grow1 P n n' -> In x (taxa n') -> In x (taxa n) \/ P x.
+Proof.
+  intros G. destruct G as [n t n' Pt E|n t n' m E|n tx Pm|n b]; nsimpl; auto.
+  - unfold add_taxon in E. destruct (alookup t (acc n)).
+    + inversion E; subst. auto.
+    + destruct (negb (is_mut n)); [discriminate|]. inversion E; subst; nsimpl.
+      rewrite in_app_iff. simpl. intros [H|[H|[]]]; [auto| subst; auto].
+  - unfold taxon_bitmask in E. destruct (alookup t (bm n)).
+    + inversion E; subst. auto.
+    + destruct (alookup t (acc n)); [|discriminate]. inversion E; subst; nsimpl. auto.
+  - intros H. left. eapply Permutation_in; [apply Permutation_sym; exact Pm| exact H].
+Qed.
+
+Lemma star_grow_members P n n' x : star (grow1 P) n n' -> In x (taxa n') -> In x (taxa n) \/ P x.
+Proof.
+  induction 1 as [|a b c G S IH]; [auto|]. intros H. destruct (IH H) as [H1|H1]; [|auto].
+  eapply grow1_members; eauto.
 Qed.
 
 Record shrinks (n n' : ns) : Prop := {
@@ -292,7 +324,7 @@ Proof.
     eapply star_step; [eapply S_remove; exact R| apply IH; exact E].
 Qed.
 
-Lemma taxa_bitmask_star n ts b n' m : taxa_bitmask n ts b = Ok (n', m) -> star grow1 n n'.
+Lemma taxa_bitmask_star P n ts b n' m : taxa_bitmask n ts b = Ok (n', m) -> star (grow1 P) n n'.
 Proof.
   revert n b. induction ts as [|t r IH]; intros n b; simpl.
   - intros E; inversion E. apply star_refl.
@@ -303,11 +335,8 @@ Qed.
 Lemma op_eq_DeepCopy_dec (o : op) : {o = DeepCopy} + {o <> DeepCopy}.
 Proof. destruct o; try (right; discriminate). left; reflexivity. Qed.
 
-Section WithLower.
-Variable lower : lbl -> lbl.
-
-Lemma newick_groups_star w n m ts l r n' g :
-  newick_groups w n m ts l r = Ok (n', g) -> star grow1 n n'.
+Lemma newick_groups_star P w n m ts l r n' g :
+  newick_groups w n m ts l r = Ok (n', g) -> star (grow1 P) n n'.
 Proof.
   revert n l r. induction ts as [|t rest IH]; intros n l r; simpl.
   - intros E; inversion E. apply star_refl.
@@ -326,21 +355,15 @@ Proof.
 Qed.
 
 Lemma new_taxa_star w ls a w' ts : new_taxa w ls a = Ok (w', ts) ->
-  star grow1 (w_ns w) (w_ns w') /\ w_next w <= w_next w'
-  /\ (forall t, In t (taxa (w_ns w')) -> In t (taxa (w_ns w)) \/ w_next w <= t < w_next w').
+  star (grow1 (fun t => w_next w <= t < w_next w')) (w_ns w) (w_ns w') /\ w_next w <= w_next w'.
 Proof.
   revert w a. induction ls as [|l r IH]; intros w a; simpl.
-  - intros E; inversion E; subst. split; [apply star_refl|]. split; [lia| auto].
+  - intros E; inversion E; subst. split; [apply star_refl| lia].
   - destruct (new_taxon w l) as [[w1 t]| |] eqn:N; try discriminate. intros E.
     apply new_taxon_spec in N. destruct N as (Ht & _ & Ha & _ & Hn).
-    destruct (IH _ _ E) as (S & Hle & Hin). split; [|split].
-    + eapply star_step; [eapply G_add; exact Ha| exact S].
-    + lia.
-    + intros x Hx. destruct (Hin x Hx) as [H|H]; [|right; lia].
-      unfold add_taxon in Ha. destruct (alookup t (acc (w_ns w))).
-      * inversion Ha as [Q]. rewrite <- Q in H. left. exact H.
-      * destruct (negb (is_mut (w_ns w))); [discriminate|]. inversion Ha as [Q]. rewrite <- Q in H.
-        simpl in H. apply in_app_or in H. destruct H as [H|[H|[]]]; [left; exact H| right; lia].
+    destruct (IH _ _ E) as (S & Hle). split; [|lia].
+    eapply star_step; [eapply G_add; [|exact Ha]; cbv beta; lia|].
+    eapply star_grow_mono; [|exact S]. cbv beta. intros; lia.
 Qed.
 
 (* ---------- deep copy ---------- *)
@@ -416,7 +439,7 @@ Proof.
   apply alookup_map_key_inv in H. destruct H as (k & v0 & Hk & Ex).
   assert (M : In k (taxa (w_ns w))) by (eapply Inv_keys_members; eauto).
   exists k. split; [exact M|]. split; [exact Ex|]. subst x.
-  rewrite deep_copy_acc in H0; assumption.
+  pose proof (deep_copy_acc w k I M) as Q. unfold dc_ren in Q. rewrite Q in H0. exact H0.
 Qed.
 
 Lemma deep_copy_inv w : Inv (w_ns w) -> Inv (w_ns (deep_copy w)).
@@ -485,23 +508,34 @@ Lemma lift_ns_ns w r o :
   w_ns (fst (lift_ns w r o)) = match r with Ok n => n | _ => w_ns w end.
 Proof. destruct r; reflexivity. Qed.
 
+Section WithLower.
+Variable lower : lbl -> lbl.
+
+Definition added (w : world) (o : op) (t : tid) : Prop :=
+  o = AddTaxon t \/ w_next w <= t < w_next (fst (step lower w o)).
+
 Theorem step_trans w o : o <> DeepCopy ->
-  star grow1 (w_ns w) (w_ns (fst (step lower w o)))
+  star (grow1 (added w o)) (w_ns w) (w_ns (fst (step lower w o)))
   \/ star shrink1 (w_ns w) (w_ns (fst (step lower w o)))
   \/ exists b, o = SetMutable b /\ w_ns (fst (step lower w o)) = set_mut (w_ns w) b.
 Proof.
-  intros ND. destruct o; simpl; try (left; apply star_refl); try congruence.
+  intros ND. destruct o; cbn [step fst w_ns set_ns]; try (left; apply star_refl); try congruence.
   - (* AddTaxon *) left. rewrite lift_ns_ns. destruct (add_taxon (w_ns w) t) eqn:A; try apply star_refl.
-    apply star_one. eapply G_add; exact A.
+    apply star_one. eapply G_add; [left; reflexivity| exact A].
   - (* NewTaxon *) left. destruct (new_taxon w l) as [[w' t]| |] eqn:N; try apply star_refl.
-    apply new_taxon_spec in N. simpl. apply star_one. eapply G_add. apply N.
-  - (* NewTaxa *) left. destruct (negb (is_mut (w_ns w))); [apply star_refl|].
+    pose proof (new_taxon_spec _ _ _ _ N) as (Ht & _ & Ha & _ & Hn).
+    cbn [fst w_ns set_ns]. apply star_one. eapply G_add; [|exact Ha].
+    right. cbn [step]. rewrite N. cbn [fst]. lia.
+  - (* NewTaxa *) left. destruct (negb (is_mut (w_ns w))) eqn:M; [apply star_refl|].
     destruct (new_taxa w ls []) as [[w' ts]| |] eqn:N; try apply star_refl.
-    apply new_taxa_star in N. apply N.
-  - (* RequireTaxon *) left. destruct (lookup_first lower w l cs); [apply star_refl|].
-    destruct (negb (is_mut (w_ns w))); [apply star_refl|].
+    pose proof (new_taxa_star _ _ _ _ _ N) as (S & _). cbn [fst].
+    eapply star_grow_mono; [|exact S]. cbv beta. intros t H. right. cbn [step]. rewrite M, N. exact H.
+  - (* RequireTaxon *) left. destruct (lookup_first lower w l cs) eqn:L; [apply star_refl|].
+    destruct (negb (is_mut (w_ns w))) eqn:M; [apply star_refl|].
     destruct (new_taxon w l) as [[w' t]| |] eqn:N; try apply star_refl.
-    apply new_taxon_spec in N. simpl. apply star_one. eapply G_add. apply N.
+    pose proof (new_taxon_spec _ _ _ _ N) as (Ht & _ & Ha & _ & Hn).
+    cbn [fst w_ns set_ns]. apply star_one. eapply G_add; [|exact Ha].
+    right. cbn [step]. rewrite L, M, N. cbn [fst]. lia.
   - (* RemoveTaxon *) right; left. rewrite lift_ns_ns.
     destruct (remove_taxon (w_ns w) t) eqn:A; try apply star_refl.
     apply star_one. eapply S_remove; exact A.
@@ -515,14 +549,14 @@ Proof.
   - (* Sort *) left. apply star_one. apply G_perm. apply py_sort_perm.
   - (* Reverse *) left. apply star_one. apply G_perm. apply Permutation_rev.
   - (* TaxonBitmask *) left. destruct (taxon_bitmask (w_ns w) t) as [[n' m]| |] eqn:A; try apply star_refl.
-    simpl. apply star_one. eapply G_memo; exact A.
+    cbn [fst w_ns set_ns]. apply star_one. eapply G_memo; exact A.
   - (* TaxaBitmask *) left. destruct (taxa_bitmask (w_ns w) ts 0) as [[n' m]| |] eqn:A; try apply star_refl.
-    simpl. eapply taxa_bitmask_star; exact A.
+    cbn [fst w_ns set_ns]. eapply taxa_bitmask_star; exact A.
   - (* BitmaskTaxa *) left. destruct (bitmask_taxa_list _ _ _ _ _); apply star_refl.
   - (* AccIndex *) left. destruct (alookup t (acc (w_ns w))); apply star_refl.
   - (* NewickGroups *) left. destruct (_ || _); [apply star_refl|].
     destruct (newick_groups w (w_ns w) m (taxa (w_ns w)) [] []) as [[n' [l r]]| |] eqn:A; try apply star_refl.
-    simpl. eapply newick_groups_star; exact A.
+    cbn [fst w_ns set_ns]. eapply newick_groups_star; exact A.
   - (* SetMutable *) right; right. exists b. split; reflexivity.
   - (* SetCS *) left. apply star_one. apply G_cs.
 Qed.
@@ -536,7 +570,7 @@ Proof.
   intros I. destruct (op_eq_DeepCopy_dec o) as [E|E].
   - subst. simpl. apply deep_copy_inv. exact I.
   - destruct (step_trans w o E) as [S|[S|(b & _ & S)]].
-    + eapply (star_inv grow1 grow1_inv); eauto.
+    + eapply (star_inv (grow1 _) (grow1_inv _)); eauto.
     + eapply (star_inv shrink1 shrink1_inv); eauto.
     + rewrite S. apply set_mut_inv. exact I.
 Qed.
